@@ -215,7 +215,7 @@ class EnumerateGates(CircuitContract):
         yield ('E3/identifiers-pairwise-different', z3.Implies(z3.And(dom(l), dom(l2), val(l) == val(l2)), l == l2))
         yield ('E4/operands-have-smaller-identifiers', z3.Implies(z3.And(S0.dom(l), z3.Not(isin(l)), i >= 0, i < S0.nops(l)),
                                                                  z3.And(dom(S0.op(l, i)), val(S0.op(l, i)) < val(l), val(l) >= S0.in_n)))
-        yield ('E5/length-is-the-number-of-identifiers', z3.And(n == S0.in_n + cf(S0.size), z3.BoolVal(not result.not_len_at_insert)))
+        yield ('E5/length-is-the-number-of-identifiers', n == S0.in_n + cf(S0.size))
         yield ('E7/identifiers-below-the-number-of-keys', z3.Implies(dom(l), z3.And(val(l) >= 0, val(l) < n)))
         yield ('E6/the-i-th-key-has-identifier-i', z3.Implies(z3.And(i >= 0, i < n), z3.And(dom(result.key_at(i)), val(result.key_at(i)) == i)))
         yield ('circuit-untouched', z3.BoolVal(not [e for e in st['h'].events if e[0] in ('gate-write', 'gate-del', 'users-alias', 'users-del')]))
